@@ -115,8 +115,9 @@ def handleComp : List String → String
     | some ps, some ctx =>
       let comp := composite emptyCtx ps
       let car := comp.inject [] ctx
-      if op = "inject" then showCarrier car
-      else showRCtx emptyCtx (comp.extract car emptyCtx)
+      if op = "inject" then showCarrier car ++ " parts=" ++ showCarrier (ps.foldl (fun c p => p.inject c ctx) [])
+      else showRCtx emptyCtx (comp.extract car emptyCtx) ++ " parts=" ++
+        showRCtx emptyCtx (ps.foldl (fun c p => p.extract car c) emptyCtx)
     | _, _ => "bad-op"
   | ["extract", pl, tp, ts, b3, xt, xs, xf, ub, bg] =>
     match parsePlist pl, [tp, ts, b3, xt, xs, xf, ub, bg].mapM ofHexStr with
@@ -124,7 +125,8 @@ def handleComp : List String → String
       let names := [traceparentName, tracestateName, Gen.b3CombinedHeader, Gen.b3TraceIdHeader, Gen.b3SpanIdHeader,
         Gen.b3SampledHeader, Gen.jaegerHeader, Gen.baggageHeader]
       let car : Carrier := (names.zip [tpv, tsv, b3v, xtv, xsv, xfv, ubv, bgv]).filter fun e => !e.2.isEmpty
-      showRCtx emptyCtx ((composite emptyCtx ps).extract car emptyCtx)
+      showRCtx emptyCtx ((composite emptyCtx ps).extract car emptyCtx) ++ " parts=" ++
+        showRCtx emptyCtx (ps.foldl (fun c p => p.extract car c) emptyCtx)
     | _, _ => "bad-op"
   | _ => "bad-op"
 
